@@ -45,7 +45,7 @@ def gen_step(rng, ext, toks):
             else: N(6)
             N(rng.choice([0, 1, 5, I32]) if rt == 5 else 0, n, rng.randint(0, n)); N(*[atom() for _ in range(n)]); N(*[rng.choice([0, 1, 2, I32, rng.randint(0, I32)]) for _ in range(n)])
         elif rt == 90: N(90, 0)
-        elif rt == 91: N(91, atom(), rng.randint(0, 2))
+        elif rt == 91: N(91, atom(), rng.choice([0, 1, 2, rng.randint(0, 3)]))     # 3 is just outside the field
         elif rt == 92: N(92, atom())
         toks.append(("e",))
     N(0); toks.append(("e",))
